@@ -404,3 +404,89 @@ Lemma sims_edit_then_run : forall ts e n pre c ep,
   [{| sm_ep := ep; sm_req := c_req (apply_edit e c); sm_base := base_name ts (apply_edit e c);
       sm_n := n; sm_pre := pre; sm_lazy := false |}].
 Proof. reflexivity. Qed.
+
+(* ------------------------------------------------------------------ per-simulation consequences *)
+
+Lemma plain_sims_eager : forall ts ops c ep s, plain ops -> In s (sims ts ops c ep) -> sm_lazy s = false.
+Proof.
+  intros ts. induction ops as [|o rest IH]; intros c ep s P H; simpl in *; [contradiction|].
+  destruct o; simpl in *; try contradiction.
+  - eauto.
+  - destruct H as [<-|H]; [reflexivity | eauto].
+Qed.
+
+(* the mode a simulation really runs in, and the name its files must have *)
+Definition eff_mode (m : mode) (s : sim) : mode := if sm_lazy s then MDask else m.
+
+Definition spec_name (m : mode) (x : nat) (b : bucket) (f : fmt) : string :=
+  match m with
+  | MExposure => render_new b None f
+  | MDask => render_new b (Some x) f
+  | MSeq => render_old b x (old_ext_spec f)
+  end.
+
+(* completeness of one flow, as a property of the tables and the mode *)
+Definition flow_complete (m : mode) (T : tables) : Prop :=
+  forall ep req n pre fs rep, flow m T ep req n pre = (fs, rep, None) ->
+  forall x b f nm, In (x, b, f, nm) rep <->
+    x < nruns_of m n /\ In (b, f) (items req) /\ nm = spec_name m x b f.
+
+Lemma flow_complete_exposure : forall T, flow_complete MExposure T.
+Proof.
+  intros T ep req n pre fs rep H x b f nm. simpl in H.
+  rewrite (flow_exposure_complete _ _ _ _ _ _ H). simpl. split.
+  - intros (-> & A & B). repeat split; auto.
+  - intros (L & A & B). repeat split; auto. lia.
+Qed.
+
+Lemma flow_complete_dask : forall T, flow_complete MDask T.
+Proof.
+  intros T ep req n pre fs rep H x b f nm. simpl in H.
+  rewrite (flow_dask_complete _ _ _ _ _ _ _ H). simpl. tauto.
+Qed.
+
+Definition flow_preserves (m : mode) (T : tables) : Prop :=
+  forall ep req n pre fs rep e, flow m T ep req n pre = (fs, rep, e) ->
+  forall f x, lookup f pre = Some x -> lookup f fs = Some x.
+
+Definition flow_attributed (m : mode) (T : tables) (P : files -> Prop) : Prop :=
+  forall ep req n pre fs rep e, P pre -> flow m T ep req n pre = (fs, rep, e) -> attributed ep rep fs.
+
+(* lifting a property of the standalone flows to every simulation of a history *)
+Theorem hist_lift : forall m T ts ops c w wf recs,
+  t_dask_snapshot T = true \/ plain ops ->
+  run_hist m T true ts ops (init_state c) w 0 = (wf, recs) ->
+  forall r, In r recs ->
+  exists s, In s (sims ts ops c 0) /\ sm_ep s = r_ep r /\ r_at r = r_dir r /\
+    (exists k, r_dir r = cand (sm_base s) k) /\ ~ In (r_dir r) (wdirs w) /\
+    wget (r_dir r) wf = Some (r_files r) /\
+    flow (eff_mode m s) T (sm_ep s) (sm_req s) (sm_n s) (sm_pre s) = (r_files r, r_rep r, r_err r).
+Proof.
+  intros m T ts ops c w wf recs Hm H r Hr.
+  destruct (hist_sound _ _ _ _ _ _ _ _ Hm H) as (M & _ & Dw & _ & Rr & _).
+  destruct (M r Hr) as (s & Hs & E1 & E2 & E3 & E4).
+  exists s. repeat split; auto.
+  unfold sim_flow in E4. unfold eff_mode. destruct (sm_lazy s); exact E4.
+Qed.
+
+Lemma sims_run_in : forall ts ops c ep s,
+  In s (sims ts ops c ep) -> sm_lazy s = false -> In (Run (sm_n s) (sm_pre s)) ops.
+Proof.
+  intros ts. induction ops as [|o rest IH]; intros c ep s H L; simpl in *; [contradiction|].
+  destruct o; simpl in *.
+  - right. eauto.
+  - destruct H as [<-|H]; [left; reflexivity | right; eauto].
+  - destruct H as [<-|H]; [discriminate L | right; eauto].
+  - right. eauto.
+Qed.
+
+Lemma sims_start_in : forall ts ops c ep s,
+  In s (sims ts ops c ep) -> In (if sm_lazy s then Start (sm_n s) (sm_pre s) else Run (sm_n s) (sm_pre s)) ops.
+Proof.
+  intros ts. induction ops as [|o rest IH]; intros c ep s H; simpl in *; [contradiction|].
+  destruct o; simpl in *.
+  - right. eauto.
+  - destruct H as [<-|H]; [left; reflexivity | right; eauto].
+  - destruct H as [<-|H]; [left; reflexivity | right; eauto].
+  - right. eauto.
+Qed.
